@@ -1016,6 +1016,13 @@ func (p *provRunner) genEvidence(r *Rng, prof provProfile) string {
 	s := fmt.Sprintf("dvote c=%s a=%d/%d/%s/%d/%d/%d/%d/%d b=%d/%d/%s/%d/%d/%d/%d/%d hv=%s",
 		c, sa, aa, chainA, h, rd, ty, ba, okA, sb, ab, chainB, hb, rb, tb, bb, okB, hvs)
 	p.lastEvidence = s
+	if r.chance(18) {
+		// directed: the accused validator has BOTH an unbonding delegation and a redelegation that are
+		// still live, each with a fractional part of a power unit (together more than one unit)
+		at := p.now() + 30*sec
+		p.script = append(p.script, fmt.Sprintf("stkred v=%d amt=%d at=%d hold=0", v, []int64{500000, 1500000, 2999999}[r.intn(3)], at), s)
+		return fmt.Sprintf("stkubd v=%d amt=%d at=%d hold=0", v, []int64{500000, 1500000, 1}[r.intn(3)], at)
+	}
 	return s
 }
 
